@@ -145,7 +145,7 @@ CTX_DOCS = [
     ("refdef", ["[a]: /u\n", {"v": "a"}, "\n"]), ("refdef-title", ["[a]: /u '\n", {"v": "a"}, "'\n"]), ("html", ["<div>\n", {"v": "a"}, "\n"]),
     ("olist", ["1. a\n", {"v": "a"}, ". b\n"]), ("loose", ["- a\n\n", {"v": "a"}, " b\n"]), ("blank-mid", ["a\n", {"v": "a"}, "\nb\n"]),
 ]
-MARKERS_QUICK = ["- ", "1. ", "12)   "]
+MARKERS_QUICK = ["- ", "12)   "]
 MARKERS_ALL = ["- ", "*  ", "+   ", "-    ", "1. ", "9) ", "123.  ", "12)   ", "7.    "]
 
 
@@ -168,6 +168,8 @@ def jobs(tier, seed):
     for w in wrappers:
         _sharded(jobs, {"cfg": CM, "scaffold": free_doc(k, "\n"), "wraps": w}, weight=10, spec=spec)
     doubles = [["quote", "quote"], ["list:- ", "quote"], ["quote", "list:1. "]]
+    if tier == "quick":
+        doubles = [["list:1. ", "quote"], ["quote", "list:- "]]
     if tier == "thorough":
         doubles += [["list:- ", "list:1. "], ["quote", "quote", "quote"], ["list:- ", "quote", "list:- "]]
     for w in doubles:
